@@ -100,6 +100,10 @@ def record(src):
     return out
 
 
+def tokens(entry):
+    return [t for t in re.split(r"[.:()]", entry) if t]
+
+
 def main():
     repo = "/repo"
     if "--repo" in sys.argv:
@@ -107,8 +111,10 @@ def main():
     rec = record(open(os.path.join(repo, "src", "types.rs")).read())
     if "--check" in sys.argv:
         wire = open(os.path.join(os.path.dirname(os.path.abspath(__file__)), "..", "lean", "CLModel", "Model", "Wire.lean")).read()
-        m = re.search(r"def recorded : List String :=\s*\[(.*?)\]\n", wire, re.S)
-        stored = re.findall(r'"([^"]*)"', m.group(1)) if m else []
+        m = re.search(r"def recorded : List \(List String\) :=\s*\[(.*?)\]\]\n", wire, re.S)
+        stored = [re.findall(r'"([^"]*)"', row) for row in (m.group(1) + "]").split("],")] if m else []
+        stored = [" ".join(r) for r in stored]
+        rec = [" ".join(tokens(x)) for x in rec]
         if stored != rec:
             print("wire layout differs from the recorded table:")
             for x in sorted(set(stored) ^ set(rec)):
@@ -116,7 +122,7 @@ def main():
             sys.exit(1)
         print("wire layout equals the recorded table (%d entries)" % len(rec))
         return
-    print("[" + ",\n   ".join('"%s"' % x for x in rec) + "]")
+    print("[" + ",\n   ".join("[" + ", ".join('"%s"' % t for t in tokens(x)) + "]" for x in rec) + "]")
 
 
 if __name__ == "__main__":
